@@ -599,6 +599,18 @@ pub fn specials(o: &mut Out) {
         put!(o, "n2", "peersharing", "SharePeers", &class, n2::peersharing::Message::SharePeers(vec![n2::peersharing::PeerAddress::V4(Ipv4Addr::from(*a), port)]));
     }
     for v in EDGE {
+        // handshake version data with an edge magic, every wire shape (n2c bare magic / [magic, query]; n2n 2 / 4 fields)
+        let class = format!("edge-magic/{v}");
+        for q in [None, Some(true)] {
+            emit(o, "n1", "handshake-n2c", "Accept", &format!("{class}/{}", if q.is_some() { "query" } else { "legacy" }),
+                 &n1::handshake::Message::Accept(v, n1::handshake::n2c::VersionData::new(v, q)), &norm_hs1);
+            emit(o, "n2", "handshake-n2c", "Accept", &format!("{class}/{}", if q.is_some() { "query" } else { "legacy" }),
+                 &n2::handshake::Message::Accept(v, n2::handshake::n2c::VersionData::new(v, q)), &norm_hs2);
+            emit(o, "n1", "handshake-n2n", "Accept", &format!("{class}/{}", if q.is_some() { "4-field" } else { "2-field" }),
+                 &n1::handshake::Message::Accept(v, n1::handshake::n2n::VersionData::new(v, true, q.map(|_| 1), q)), &norm_hs1);
+            emit(o, "n2", "handshake-n2n", "Accept", &format!("{class}/{}", if q.is_some() { "4-field" } else { "2-field" }),
+                 &n2::handshake::Message::Accept(v, n2::handshake::n2n::VersionData::new(v, true, q.map(|_| 1), q)), &norm_hs2);
+        }
         let class = format!("edge/{v}");
         let h = vec![0xABu8; 32];
         put!(o, "n1", "chainsync-block", "RollBackward", &class,
